@@ -395,6 +395,12 @@ pub fn judge_supply(t: &SupplyTrace, o: &SupplyOutcome) -> SupplyJudgement {
             }
         }
     }
+    // C03, other direction: a rule rejection needs a cause in the reference model
+    if ev.rules_judged && ev.rules_reject.is_none() && c01.is_empty() {
+        if let Some(v) = o.verdicts.iter().find(|v| !v.ok && v.panic.is_none() && v.class == "ArtifactRuleError") {
+            f.push(finding("C03", "rule-rejection-without-cause", format!("the verifier rejects with '{}' but the reference model accepts every step's rules", v.msg.chars().take(200).collect::<String>())));
+        }
+    }
     // C13: all repetitions agree
     if o.verdicts.len() > 1 {
         let classes: BTreeSet<&str> = o.verdicts.iter().map(|v| v.verdict_class()).collect();
@@ -565,6 +571,20 @@ fn shape_of(t: &SupplyTrace, ev: &LevelEval, c01: &[Finding], o: &SupplyOutcome)
     fired.sort();
     fired.dedup();
     let c: Vec<&str> = c01.iter().map(|f| f.clause.as_str()).collect();
+    // rule-list signature: kinds in order, with prefix flags, per step
+    for st in &t.root.layout.steps {
+        for (tag, rl) in [("m", &st.exp_mat), ("p", &st.exp_prod)] {
+            s.push_str(tag);
+            for r in rl {
+                s.push_str(&r.first().map(|k| k.chars().take(2).collect::<String>()).unwrap_or_default());
+                if r.first().map(|k| k == "MATCH").unwrap_or(false) {
+                    s.push_str(&format!("{}", r.iter().filter(|x| *x == "IN").count()));
+                }
+            }
+            s.push('/');
+        }
+    }
+    s.push_str(&format!("rj{:?}{}", ev.rules_reject.is_some(), ev.rules_judged));
     format!(
         "{}|{:?}|{:?}|{:?}|caller{}|files{}|{}",
         s,
